@@ -26,3 +26,5 @@ def run(ck):
     sampling.r13_weight_vector_tracks_position(ck, P, 'C02-R17')
     sampling.r12_wrap_is_a_loop(ck, P, 'C02-R18')     # the MMX, SSE2 and C nearest scanlines wrap the coordinate the same way (a loop)
     filt.r8_coefficient_product_width(ck, P, 'C02-R19')   # both separable-convolution readers form the coefficient product in 64 bits
+    sampling.r10_transform_flags(ck, P, 'C02-R20')     # the rotate/scale fast paths trust the classification flags; the general path does not
+    factors.r21_mmx_lane_consistency(ck, P)
